@@ -782,11 +782,17 @@ fn run_history(w: &W, f: &FileModel, steps: u64, allow_faults: bool, allow_cut: 
 }
 
 fn ix_history(w: &W) -> Verdict {
-    let scale = match w.draw(400) {
-        0..=379 => Scale::Small,
-        380..=389 => Scale::Large,
-        390..=395 => Scale::Many,
-        _ => Scale::Huge,
+    // quick: 10/400 large, 6/400 many, 4/400 huge; thorough: 30, 20, 12 of 400
+    let (l, m, h) = if crate::world::thorough() { (30, 20, 12) } else { (10, 6, 4) };
+    let d = w.draw(400);
+    let scale = if d < 400 - l - m - h {
+        Scale::Small
+    } else if d < 400 - m - h {
+        Scale::Large
+    } else if d < 400 - h {
+        Scale::Many
+    } else {
+        Scale::Huge
     };
     match scale {
         Scale::Small => {}
@@ -812,7 +818,7 @@ fn ix_clean(w: &W) -> Verdict {
 
 /// Every (s, e) pair of one small record, each under a fresh schedule.
 fn ix_allpairs(w: &W) -> Verdict {
-    let f = gen_file(w, Scale::Small, 2, 24);
+    let f = gen_file(w, Scale::Small, 2, if crate::world::thorough() { 48 } else { 24 });
     w.probe("workload_nonempty");
     w.probe("allpairs_sweep");
     let chunk = *w.pick(&CHUNKS);
